@@ -10,6 +10,7 @@ import Switcher.Model.Bridge
 import Switcher.Model.Life
 import Switcher.Model.LifeC
 import Switcher.Model.Manager
+import Switcher.Model.ClientC
 open Spec Wire Model
 
 def showPyText : Py (List Char) → String
@@ -157,11 +158,12 @@ def goBridge (ports : List Nat) (s : BridgeC) : List (BridgeAct ⊕ Nat) → Lis
     (o.text.replace " " "_" ++ ":" ++ (if s'.running then "1" else "0") ++ ":" ++
       String.ofList (ports.map (fun p => if s'.openPorts.contains p then '1' else '0'))) :: goBridge ports s' rest
 
-def goClient (s : ClientState) : List ClientAct → List String
+/-- the code-level client (Model.ClientC: `_writer` / `_reader` / `_connected`); `Props.C18.client_code_refines` relates it to the abstract machine -/
+def goClient (s : ClientC) : List ClientAct → List String
   | [] => []
   | a :: rest =>
-    let (s', o) := clientStep true s a
-    (o.text.replace " " "_" ++ ":" ++ (if s'.connected then "1" else "0") ++ ":" ++ toString s'.openSocks.length) :: goClient s' rest
+    let (s', o) := clientStepC true s a
+    (o.text.replace " " "_" ++ ":" ++ (if s'.flag then "1" else "0") ++ ":" ++ toString s'.openS.length) :: goClient s' rest
 
 def drive : List String → String
   | ["sign", p] =>
@@ -293,7 +295,7 @@ def drive : List String → String
       else none     -- withx, withx:TimeoutError, …: whatever the body raises
     match acts.mapM parse with
     | some as =>
-      " ".intercalate (goClient clientInit as)
+      " ".intercalate (goClient clientInitC as)
     | none => "bad-arg"
   | "op" :: rest => runOpLine rest
   | _ => "bad-op"
